@@ -202,9 +202,13 @@ func (a *ANP) K8sB() *apisv1a.BaselineAdminNetworkPolicy {
 // ---------- tool adapter ----------
 
 type ToolResult struct {
-	Err   error
-	Conns map[string]string // "src|dst" -> conn string
-	IPs   [][2]uint32       // IP peers
+	Err      error
+	Conns    map[string]string // "src|dst" -> conn string
+	IPs      [][2]uint32       // IP peers
+	WF       []string          // violations of the C05 well-formedness invariant
+	RawConns []connlist.Peer2PeerConnection
+	RawPeers []connlist.Peer
+	Errors   []connlist.ConnlistError
 }
 
 var quiet = logger.NewDefaultLoggerWithVerbosity(logger.LowVerbosity)
@@ -228,9 +232,12 @@ func RunList(infos []*resource.Info, exposure bool) (ToolResult, *connlist.Connl
 	ca := connlist.NewConnlistAnalyzer(opts...)
 	conns, peers, err := ca.ConnlistFromResourceInfos(infos)
 	res := ToolResult{Err: err, Conns: map[string]string{}}
+	res.Errors = ca.Errors()
 	if err != nil {
 		return res, ca
 	}
+	res.RawConns, res.RawPeers = conns, peers
+	res.WF = WellFormed(conns, peers)
 	for _, c := range conns {
 		m := map[string][]Interval{}
 		if c.AllProtocolsAndPorts() {
